@@ -67,7 +67,8 @@ RULE = (
     "TF / JAX connector in the drawn mode vs Richardson finite differences of the NumPy "
     "connector. Non-trivial = >=2 parameters, depth>=2, |J_fd| > 1e-6; distinct by hash of "
     "the case. Permanent: every (rows, cols) multiplicity pattern with total<=6 on <=3 "
-    "rows (quick; <=8 thorough) on square and non-square shapes plus Hypothesis samples up "
+    "rows (quick; <=8 thorough) on square shapes and total<=3 (<=5) on every wide and tall "
+    "shape up to 3x3 (tall ones after a child-process canary) plus Hypothesis samples up "
     "to total 20, complex Gaussian matrix from a seed; non-trivial = total>=2 and a "
     "multiplicity>1. Isolated rules: Hypothesis-drawn (r, phi, cutoff) / (unitary seed, d, "
     "cutoff) with random complex upstream."
@@ -432,12 +433,18 @@ WEIGHT = {"Displacement": 3, "Squeezing": 3, "Interferometer": 2, "Beamsplitter"
 #  * jax + Squeezing2 / QuadraticPhase: the `linear` step goes through `connector.schur`,
 #    for which JAX has no differentiation rule (NotImplementedError: an explicit refusal,
 #    not a wrong derivative) -> not part of what the JAX connector differentiates.
-#  * tf + Squeezing2 / QuadraticPhase (every gate that goes through the `linear` step):
-#    TensorflowConnector.polar returns the complex conjugate of the positive factor, so
-#    the unitary factor is not unitary for complex symplectic matrices and the *state*
-#    already differs from the NumPy connector's (Squeezing2 with phi != 0: conjugated
-#    amplitudes; QuadraticPhase: wrong from the vacuum on).  Buckets
-#    C10:tf:eager:forward:Squeezing2 / :QuadraticPhase, part tf_linear_gates.
+#  * tf + Squeezing2 with a free angle: after the polar fix (35578e8) the state still
+#    differs from the NumPy connector's (known finding C10:tf:eager:forward:Squeezing2,
+#    part tf_linear_gates).  Squeezing2 with the angle held at 0 agrees in value and in
+#    derivative (measured on 35578e8+: 8/8 circuits, all input kinds) and is offered as
+#    the pseudo-gate Squeezing2_phi0.
+#  * tf + QuadraticPhase: the value agrees since 35578e8, but TensorFlow's derivative
+#    through the Euler decomposition (polar / logm / takagi on eig-based helpers) is wrong
+#    in every TF mode (custom gradients are not involved): Vacuum, QuadraticPhase(0.264),
+#    d=1, cutoff 4: d Im psi[2]/ds = 0.34294 vs 0.33119.  Bucket
+#    C10:tf:eager:QuadraticPhase:s, part tf_linear_gates; excluded from the main generator
+#    so that the search continues behind it.
+B_TF_QP_GRAD = "C10:tf:eager:QuadraticPhase:s"
 
 
 def gate_pool(fw, mode, batch):
@@ -445,7 +452,8 @@ def gate_pool(fw, mode, batch):
     if fw == "jax":
         pool = [g for g in pool if g not in ("Squeezing2", "QuadraticPhase")]
     if fw == "tf":
-        pool = [g for g in pool if g not in ("Squeezing2", "QuadraticPhase")]
+        pool = [g for g in pool if g != "QuadraticPhase"]
+        pool = ["Squeezing2_phi0" if g == "Squeezing2" else g for g in pool]
     return pool
 
 
@@ -459,14 +467,23 @@ def jax_batch_normalize_cases(tier):
 
 
 def tf_linear_cases(tier):
-    base = {"d": 2, "cutoff": 4, "prep": {"kind": "vacuum"},
-            "gates": [{"g": "Squeezing2", "modes": [0, 1]}],
-            "out": {"kind": "amp", "idx": [4]}}
-    qp = {"d": 1, "cutoff": 5, "prep": {"kind": "vacuum"},
+    """Trigger regions of the TF `linear` step: the known Squeezing2 value finding, the
+    QuadraticPhase derivative finding (the same case is the regression of the fixed value
+    bucket C10:tf:eager:forward:QuadraticPhase), and a Squeezing2(phi=0) regression."""
+    # after 35578e8 the vacuum and |1,0> inputs agree in value; |1,1> does not (|0,2>
+    # amplitude off by 2.8e-2 at cutoff 4)
+    sq2 = {"d": 2, "cutoff": 4, "prep": {"kind": "number", "occ": [1, 1]},
+           "gates": [{"g": "Squeezing2", "modes": [0, 1]}],
+           "out": {"kind": "amp", "idx": [5]}}
+    qp = {"d": 1, "cutoff": 4, "prep": {"kind": "vacuum"},
           "gates": [{"g": "QuadraticPhase", "modes": [0]}],
           "out": {"kind": "amp", "idx": [2]}}
-    return [{"fw": "tf", "mode": "eager", "circ": base, "points": [[0.3, 0.7]]},
-            {"fw": "tf", "mode": "eager", "circ": qp, "points": [[0.4]]}]
+    sq0 = {"d": 2, "cutoff": 5, "prep": {"kind": "number", "occ": [1, 1]},
+           "gates": [{"g": "Squeezing2_phi0", "modes": [1, 0]}],
+           "out": {"kind": "amp", "idx": [4, 0]}}
+    return [{"fw": "tf", "mode": "eager", "circ": sq2, "points": [[0.3, 0.7]]},
+            {"fw": "tf", "mode": "eager", "circ": qp, "points": [[0.264]]},
+            {"fw": "tf", "mode": "eager", "circ": sq0, "points": [[-1.05]]}]
 
 
 @st.composite
@@ -524,11 +541,6 @@ def circuit_case(draw, fw, modes, max_gates=6, max_d=3, max_cutoff=7, max_points
         out["seed"] = draw(st.integers(0, 2**20))
     if kind != "norm":
         out["normalize"] = draw(st.sampled_from([False, False, True]))
-    if fw == "jax" and batch and out.get("normalize"):
-        # BatchPureFockState.normalize hands a Python list to jnp.sqrt -> TypeError under
-        # the JAX connector (bucket C10:jax:eager:raises:TypeError:batch, part
-        # jax_batch_normalize); excluded here so that the search continues behind it
-        out["normalize"] = False
     circ["out"] = out
     k = len(K.slots(circ))
     if k == 0:
@@ -621,7 +633,45 @@ def _perm_fns():
 B_NONSQUARE = "C10:jax:perm:nonsquare-gradient"
 
 
+_TALL_CANARY: dict = {}
+
+
+def _tall_canary():
+    """Before dc97934 the backward pass of a tall matrix read and wrote out of bounds and
+    aborted the interpreter.  One tall pattern is therefore evaluated in a child process
+    first (once per process); only if that child survives are tall patterns evaluated
+    in-process.  Returns None if safe, else the child's failure message."""
+    if "msg" not in _TALL_CANARY:
+        _TALL_CANARY["msg"] = _run_perm_child({"rows": [1, 1], "cols": [2], "seed": 10})
+    return _TALL_CANARY["msg"]
+
+
+def _run_perm_child(case):
+    import json as _json
+    import subprocess
+
+    code = ("import sys; sys.path.insert(0, %r); import checks.c10_gradients as m; "
+            "m._child_perm(sys.argv[1])" % str(_VERIF))
+    try:
+        r = subprocess.run([sys.executable, "-c", code, _json.dumps(case)],
+                           capture_output=True, text=True, timeout=900, cwd=str(_VERIF))
+    except subprocess.TimeoutExpired:
+        return None  # inconclusive: never a violation
+    if "C10-CHILD-OK" in r.stdout:
+        return None
+    if "C10-CHILD-VIOLATION" in r.stdout:
+        return r.stdout.split("C10-CHILD-VIOLATION", 1)[1].strip()
+    return (f"rows={case['rows']} cols={case['cols']} seed={case['seed']}: the process "
+            f"evaluating jax.grad(perm) on this {len(case['rows'])}x{len(case['cols'])} "
+            f"matrix died with return code {r.returncode}: {r.stderr[-400:]!r}")
+
+
 def prop_perm(case, ctx):
+    if len(case["rows"]) > len(case["cols"]) and not os.environ.get("C10_CHILD"):
+        msg = _tall_canary()
+        if msg is not None:
+            ctx.case(case, True, ["perm_nonsquare", "perm_tall_guarded"])
+            raise Violation(B_NONSQUARE, "[tall-matrix canary in a child process] " + msg)
     jax = _jax()
     jnp = jax.numpy
     F0 = _perm_fns()
@@ -635,6 +685,7 @@ def prop_perm(case, ctx):
     nontrivial = total >= 2 and (max(rows) > 1 or max(cols) > 1)
     ctx.case(case, nontrivial, ["perm_total_%02d" % total,
                                 "perm_square" if square else "perm_nonsquare"]
+             + ([] if square else ["perm_tall" if nr > nc else "perm_wide"])
              + (["perm_mult_gt1"] if nontrivial else [])
              + (["perm_has_zero_mult"] if (0 in rows or 0 in cols) else []))
     jr = jnp.asarray(rows, dtype=jnp.uint64)
@@ -695,8 +746,14 @@ def _shuffled(cases, seed):
     return [cases[int(i)] for i in order]
 
 
+NONSQUARE_SHAPES = ((1, 2), (2, 1), (2, 3), (3, 2), (1, 3), (3, 1))
+
+
 def perm_patterns(tier):
+    """Square shapes 1x1..3x3 with total <= 6 (8 thorough) and every non-square shape up
+    to 3 rows / columns, wide and tall, with total <= 3 (5 thorough)."""
     tmax = 6 if tier == "quick" else 8
+    tmax_ns = 3 if tier == "quick" else 5
     cases = []
     seed = 0
     for total in range(1, tmax + 1):
@@ -704,22 +761,19 @@ def perm_patterns(tier):
             for r, c in K.patterns(total, nr):
                 seed += 1
                 cases.append({"rows": r, "cols": c, "seed": seed})
+    seed = 10_000
+    for total in range(1, tmax_ns + 1):
+        for nr, nc in NONSQUARE_SHAPES:
+            for r, c in K.patterns(total, nr, nc):
+                seed += 1
+                cases.append({"rows": r, "cols": c, "seed": seed})
     # a deterministic shuffle: whatever a time budget cuts off is a random subset
     return _shuffled(cases, 20260923)
 
 
-def perm_nonsquare_patterns(tier):
-    """Wide matrices only (fewer rows than columns): the backward pass then stays inside
-    its buffers.  Tall matrices make it read and write out of bounds (process abort), they
-    are probed in a child process by `perm_nonsquare_tall`."""
-    tmax = 3 if tier == "quick" else 5
-    cases, seed = [], 10_000
-    for total in range(1, tmax + 1):
-        for nr, nc in ((1, 2), (2, 3), (1, 3)):
-            for r, c in K.patterns(total, nr, nc):
-                seed += 1
-                cases.append({"rows": r, "cols": c, "seed": seed})
-    return _shuffled(cases, 7)
+def perm_nonsquare_regress(tier):
+    return [{"rows": [2], "cols": [1, 1], "seed": 9}, {"rows": [1, 1], "cols": [1, 0, 1],
+                                                      "seed": 7}]
 
 
 def _mine(cases):
@@ -735,12 +789,18 @@ def _mine(cases):
 
 
 def tall_cases(tier):
-    return [{"rows": [1, 1], "cols": [2], "seed": 10}, {"rows": [1, 0, 1], "cols": [1, 1],
-                                                       "seed": 8}]
+    """One tall regression pattern per JAX shard (evaluated in a child process; its result
+    doubles as the canary that allows tall patterns in-process in the `perm` part)."""
+    base = [([1, 1], [2]), ([1, 0, 1], [1, 1]), ([2, 1], [3]), ([1, 1, 1], [2, 1]),
+            ([0, 2], [2]), ([1, 2, 0], [2, 1]), ([1, 1, 1], [3]), ([2, 0, 1], [1, 2])]
+    n = max(2, _FW_COUNT if FW == "jax" else 2)
+    return [{"rows": r, "cols": c, "seed": 10 + i} for i, (r, c) in enumerate(base[:n])]
 
 
 def _child_perm(case_json):  # entry point of the child process
     import json as _json
+
+    os.environ["C10_CHILD"] = "1"
 
     from lib.harness import Ctx
 
@@ -753,29 +813,13 @@ def _child_perm(case_json):  # entry point of the child process
 
 
 def prop_perm_tall(case, ctx):
-    """Same property as prop_perm on a tall matrix, evaluated in a child process because
-    the unchanged tree aborts the interpreter (heap overflow / uncaught C++ exception)."""
-    import json as _json
-    import subprocess
-
-    ctx.case(case, True, ["perm_nonsquare_tall"])
-    code = ("import sys; sys.path.insert(0, %r); import checks.c10_gradients as m; "
-            "m._child_perm(sys.argv[1])" % str(_VERIF))
-    try:
-        r = subprocess.run([sys.executable, "-c", code, _json.dumps(case)],
-                           capture_output=True, text=True, timeout=600, cwd=str(_VERIF))
-    except subprocess.TimeoutExpired:
-        ctx.count("tall_child_timeout")
-        return
-    if "C10-CHILD-OK" in r.stdout:
-        return
-    if "C10-CHILD-VIOLATION" in r.stdout:
-        msg = r.stdout.split("C10-CHILD-VIOLATION", 1)[1].strip()
-    else:
-        msg = (f"rows={case['rows']} cols={case['cols']} seed={case['seed']}: the process "
-               f"evaluating jax.grad(perm) on this {len(case['rows'])}x{len(case['cols'])} "
-               f"matrix died with return code {r.returncode}: {r.stderr[-400:]!r}")
-    raise Violation(B_NONSQUARE, msg)
+    """Regression of dc97934: the same property as prop_perm on a tall matrix, evaluated
+    in a child process (the unfixed tree aborted the interpreter)."""
+    ctx.case(case, True, ["perm_nonsquare_tall_child"])
+    msg = _run_perm_child(case)
+    _TALL_CANARY.setdefault("msg", msg)
+    if msg is not None:
+        raise Violation(B_NONSQUARE, msg)
 
 
 @st.composite
@@ -1077,14 +1121,14 @@ def parts(tier):
         ]
     if both or FW == "jax":
         ps += [
-            Part("perm", prop_perm, kind="enum", cases=lambda t: _mine(perm_patterns(t)),
-                 budget_s={"quick": 70, "thorough": 6000}),
-            Part("perm_nonsquare", prop_perm, kind="enum",
-                 cases=lambda t: _mine(perm_nonsquare_patterns(t)),
-                 budget_s={"quick": 20, "thorough": 1200}),
             Part("perm_nonsquare_tall", prop_perm_tall, kind="enum",
                  cases=lambda t: _mine(tall_cases(t)),
                  budget_s={"quick": 120, "thorough": 1200}),
+            Part("perm", prop_perm, kind="enum", cases=lambda t: _mine(perm_patterns(t)),
+                 budget_s={"quick": 70, "thorough": 6000}),
+            Part("perm_nonsquare_regress", prop_perm, kind="enum",
+                 cases=lambda t: _mine(perm_nonsquare_regress(t)),
+                 budget_s={"quick": 30, "thorough": 300}),
             Part("perm_large", prop_perm_large, strategy=perm_large_case(),
                  examples=ex(24, 600), budget_s={"quick": 20, "thorough": 3000}),
             Part("jax_batch_normalize", prop_circuit, kind="enum",
